@@ -1333,7 +1333,14 @@ impl<'source, 'trivia> GroupBuilder<'source, 'trivia> {
             TriviaToken::EmptyLine => {
                 // An empty line directly after the start of a block is dropped
                 // (stripping the trailing breaks here would remove the block's start).
-                if !matches!(
+                //
+                // Empty lines are only kept between the lines of a block, an empty line in the
+                // middle of an expression is dropped (a line break in an expression's group would
+                // continue the expression at column 0).
+                if matches!(
+                    position_info,
+                    TriviaPosition::LineStart | TriviaPosition::ScriptEnd
+                ) && !matches!(
                     self.items.last(),
                     Some(FormatItem::GroupBreak(GroupBreak::StartBlock))
                 ) {
